@@ -29,7 +29,7 @@ theorem rcNormalize_div (n : Nat) (v : St) (b : ByteArray) (hge : n ≤ v.inPos)
     omega
   · rw [dif_neg hb]
     right
-    exact ⟨_, rfl, by show b.size ≤ v.inPos; omega⟩
+    exact ⟨_, rfl, hge⟩
 
 theorem loc_rcNormalize : Loc rcNormalize where
   mono := by
